@@ -1463,9 +1463,30 @@ def view_safe_operations(rep, rule, idx, module="csr/action.py"):
                     parents[ch] = x
             # local aliases bound to a conversion are values; local aliases bound to the raw signal are views too
             raw = set(shaped)
+            via_helper = {}
             for x in _ast.walk(m_.node):
                 if isinstance(x, _ast.Assign) and len(x.targets) == 1 and isinstance(x.targets[0], _ast.Name) and _ast.unparse(x.value) in shaped:
                     raw.add(x.targets[0].id)
+                # x = helper(view): when the helper can hand its argument back unconverted (`return s.as_value() if isinstance(s, data.View)
+                # else s` unwraps layouts but not enumerations), x may still be the view
+                if isinstance(x, _ast.Assign) and len(x.targets) == 1 and isinstance(x.targets[0], _ast.Name) and isinstance(x.value, _ast.Call) and \
+                        len(x.value.args) == 1 and _ast.unparse(x.value.args[0]) in shaped and _ast.unparse(x.value.func) not in ("Value.cast",):
+                    h = None
+                    fn_ = x.value.func
+                    if isinstance(fn_, _ast.Name):
+                        h = idx.resolve_function(cls.module, fn_.id)
+                    elif isinstance(fn_, _ast.Attribute) and isinstance(fn_.value, _ast.Name) and fn_.value.id in ("self", "cls"):
+                        h = idx.lookup_method(cls, fn_.attr)
+                    if h is not None:
+                        hp = [p_ for p_ in h.params if p_ not in ("self", "cls")]
+                        passes_through = any(isinstance(r_, _ast.Return) and r_.value is not None and any(
+                            isinstance(y, _ast.Name) and hp and y.id == hp[0] and isinstance(pp, (_ast.Return, _ast.IfExp))
+                            for pp in [r_] + [z for z in _ast.walk(r_.value) if isinstance(z, _ast.IfExp)]
+                            for y in ([pp.value] if isinstance(pp, _ast.Return) else [pp.body, pp.orelse]))
+                            for r_ in _ast.walk(h.node))
+                        if passes_through:
+                            raw.add(x.targets[0].id)
+                            via_helper[x.targets[0].id] = h.qual
             for x in _ast.walk(m_.node):
                 if not isinstance(x, (_ast.Attribute, _ast.Name)) or _ast.unparse(x) not in raw or not isinstance(getattr(x, 'ctx', None), _ast.Load):
                     continue
@@ -1486,6 +1507,8 @@ def view_safe_operations(rep, rule, idx, module="csr/action.py"):
                     bad = f"`.{par.attr}()` is a Value method"
                 elif isinstance(par, (_ast.BinOp, _ast.UnaryOp)):
                     bad = "it is an operand of an arithmetic / bitwise operator"
+                if bad and _ast.unparse(x) in via_helper:
+                    bad += f" -- `{_ast.unparse(x)}` comes from {via_helper[_ast.unparse(x)]}(...), which hands some arguments back unconverted"
                 if bad:
                     rep.bad(rule, m_.site, f"`{_ast.unparse(x)}` is used as a view (its shape is the shape-like `shape` parameter)",
                             f"{bad}: for an enumeration or data-layout shape -- which the constructor accepts, and for which R / W / RW work -- the "
